@@ -111,6 +111,23 @@ PROPS = {
         rules=["NoPanic", "QueryUpper", "AuthNotCached", "AuthForever", "CacheExpired", "CacheVisible"],
         shards=14,
     ),
+    "C14": dict(
+        mc=["MC_Mdns"],
+        gen=[dict(module="Gen_RData", cfg="Gen_RData.cfg", out="rdata_cases.ndjson"),
+             dict(module="Gen_Inspect", cfg="Gen_Inspect.cfg", out="inspect_cases.ndjson")],
+        topic="datagram",
+        rules=["LoopAlive", "LockClean", "ReplyParses"],
+        shards=14,
+    ),
+    "C15": dict(
+        mc=["MC_Mdns"],
+        gen=[dict(module="Gen_Discover", cfg="Gen_Discover.cfg", out="discover_cases.ndjson",
+                  simulate=dict(quick="num=1500", thorough="num=30000", depth=30)),
+             dict(module="Gen_Discover", cfg="Gen_Escape.cfg", out="escape_cases.ndjson")],
+        topic="discover",
+        rules=["NoPanic", "DiscoverExact", "IngestFilter", "EscapeInverse"],
+        shards=12,
+    ),
     "C16": dict(
         gen=[dict(module="Gen_Packet", cfg="Gen_Packet.cfg", out="packet_cases.ndjson",
                   simulate=dict(quick="num=500", thorough="num=8000", depth=40)),
@@ -348,5 +365,35 @@ TEXT = {
               "design)."),
         note=_TRUSTED + " Timing: scheduling jitter only widens the intervals (more behaviours accepted), so it cannot cause an alarm.",
         technique="TLA+ store machine with clock; TLC-generated histories replayed in real time; interval-narrowing trace validation",
+    ),
+    "C14": dict(
+        text=("Design: one node with Receiver and App threads and the store behind a reader/writer lock is modelled "
+              "(MC_Mdns); TLC proves for every interleaving and datagram class that the receiver stays alive, the lock is "
+              "never poisoned and the application can still use the store provided every pipeline step is total, and "
+              "refutes the pinned tree's partial steps (negative configuration). Code: the loop bodies of the responder, "
+              "the discovery listener and the one-shot resolver are composed from the real functions in the order the "
+              "loops call them (header peek, Packet::parse, build_reply under a read lock / add_response_to_resources "
+              "under a write lock of a real RwLock, compressed serialisation, re-parse), each step under catch_unwind, "
+              "and driven with datagrams of length 0..12, valid traffic, hostile names (non-UTF-8, NUL, dots, maximal "
+              "labels) under and outside the watched service, every truncation and +-1 perturbation of valid traffic, the "
+              "specification's generated messages as queries and as responses, and random datagrams up to 9000 bytes, "
+              "with a valid probe every 40 datagrams. TLC checks per datagram: no step panicked (LoopAlive), lock not "
+              "poisoned and store usable (LockClean), every reply decodes with the reference decoder (ReplyParses)."),
+        note=_TRUSTED + " Pure pipeline only: the socket loops themselves (recv_from/send_to, thread scheduling) are not exercised; the async variants share the same functions.",
+        technique="TLA+ lock/thread model checked by TLC; real pipeline functions driven with generated and mutated datagrams; trace validation",
+    ),
+    "C15": dict(
+        text=("TLC random-walks announcement histories (Gen_Discover: up to 5 announcements from several peers: instances of "
+              "the watched and of a foreign service with 0..3 IPv4/IPv6 addresses, 0..2 ports and attribute maps with "
+              "absent/empty/non-empty values; the discoverer's own instance echoed; the service PTR; unrelated names). "
+              "Each announcement is produced by InstanceInformation::into_records, crosses the wire as a compressed "
+              "packet, is parsed and ingested by add_response_to_resources (with and without the on_discovery channel) "
+              "into a store initialised exactly like ServiceDiscovery::new, and reported via from_records over the "
+              "cached records. TLC checks that the reported set equals exactly the instances of the watched service "
+              "announced by others, field by field (Mdns.tla), that channel notifications are among them, and -- for "
+              "every string up to length 5 over {a . \\ U+00E9} -- that escaping then unescaping is the identity and "
+              "equals the RFC 6763 escaping."),
+        note=_TRUSTED + " Each instance name is announced with one description per history; merging of conflicting re-announcements is not specified by the property.",
+        technique="TLA+ discovery spec; TLC-generated announcement histories replayed through the real record/packet/store pipeline; trace validation",
     ),
 }
